@@ -23,9 +23,15 @@ def menu(labels, full=False):
               {"k": "abs", "de": 1.0},
               {"k": "comb", "a": 0.0, "b": 1.0, "de": 1.0},
               {"k": "comb", "a": 1.0, "b": 0.0, "de": 2.0}]
+    if len(names) >= 3:
+        # three mutually different labels on one span: pairs are candidates, the triple is not (3.5 > 3 * delta_empty)
+        D.append({"k": "comb", "a": 1.0, "b": 3.5, "de": 1.0})
     if not unl and names:
-        D.append({"k": "comb", "a": 1.0, "b": 1.0, "de": 1.7, "cat": {"k": "ord", "labels": names}})
+        # the scale is a strict superset of the labels in use, with unused grades before and between the used ones:
+        # category positions come from the dissimilarity's own list, never from the continuum's categories
+        D.append({"k": "comb", "a": 1.0, "b": 1.0, "de": 1.7, "cat": {"k": "ord", "labels": sorted(set(names) | {"m", "xx"})}})
         if full:
+            D.append({"k": "comb", "a": 1.0, "b": 1.0, "de": 1.7, "cat": {"k": "ord", "labels": names}})
             D.append({"k": "comb", "a": 3.0, "b": 2.0, "de": 0.5})
             pre = PRE_XY if len(names) <= 2 else PRE_XYZ
             if set(names) <= set(pre["labels"]):
@@ -136,7 +142,11 @@ def universes(tier, purpose="opt"):
              dict(n=3, k=2, T=2, labels=XY, sym=True),
              dict(n=3, k=1, T=2, labels=["x", None]),
              dict(n=4, k=1, T=2, labels=XY),
-             dict(n=5, k=1, T=2, labels=["x"])]
+             dict(n=5, k=1, T=2, labels=["x"]),
+             # annotator names whose case-sensitive and case-insensitive orders differ, unequal unit counts
+             dict(n=2, k=2, T=2, labels=["x"], names=["Zoe", "adam"]),
+             dict(n=3, k=1, T=2, labels=["x"], names=["Bob", "Carl", "alice"]),
+             dict(n=3, k=1, T=1, labels=["x", "y", "z"])]
     else:
         U = [dict(n=2, k=2, T=4, labels=XY),
              dict(n=2, k=3, T=6, labels=["x"], segs=LONG),
@@ -149,13 +159,16 @@ def universes(tier, purpose="opt"):
              dict(n=3, k=2, T=2, labels=["x", None], sym=True),
              dict(n=4, k=1, T=2, labels=XY),
              dict(n=4, k=2, T=2, labels=["x"], sym=True),
-             dict(n=5, k=1, T=2, labels=XY, sym=True)]
+             dict(n=5, k=1, T=2, labels=XY, sym=True),
+             dict(n=2, k=3, T=2, labels=["x"], names=["Zoe", "adam"]),
+             dict(n=3, k=2, T=2, labels=["x"], names=["Bob", "Carl", "alice"]),
+             dict(n=3, k=1, T=2, labels=["x", "y", "z"])]
     if purpose in ("struct", "cover") and tier == "quick":
         U[0] = dict(U[0], sym=True)  # the largest 2-annotator universe: one representative per annotator swap
     if purpose == "backend":
         # one representative per annotator permutation (the back-end sees the same ILP up to column order)
         for u in U:
-            if "ks" not in u:
+            if "ks" not in u and "names" not in u:
                 u["sym"] = True
     fams = []
     qs = [(3, 2), (3, 3), (4, 2), (5, 2), (2, 5)] if tier == "quick" else \
@@ -207,7 +220,7 @@ def iter_task_specs(task):
         u = task["universe"]
         dup_every = task.get("dup_every", 0)
         for idx, spec in iter_G(u["n"], u["k"], u["T"], u["labels"], shard=task["shard"], nshards=task["nshards"],
-                                sym=u.get("sym", False), max_labels=u.get("max_labels"),
+                                sym=u.get("sym", False), max_labels=u.get("max_labels"), names=u.get("names"),
                                 segs=[tuple(x) for x in u["segs"]] if u.get("segs") else None):
             yield spec
             if dup_every and idx % dup_every == 0:
@@ -331,7 +344,7 @@ def to_unit_(u):
     return to_unit(u)
 
 
-def eval_case(spec, recipe, backend, kind, window=None, warm=None):
+def eval_case(spec, recipe, backend, kind, window=None, warm=None, late=False):
     """Run the library on one case.  Returns dict(ok, nts, disorder, uds, solvers) or dict(ok=False, exc)."""
     from ..pool import deadline, CaseTimeout
     from ..spec import build_continuum
@@ -342,6 +355,11 @@ def eval_case(spec, recipe, backend, kind, window=None, warm=None):
             _state["calls"].clear()
             d = DISSIMS.get(recipe)
             al = run_alignment(c, d, kind, window)
+            if late:
+                # the alignment is first read after the caller went on editing the continuum it was computed from
+                from pyannote.core import Segment
+                c.add(sorted(a for a, _ in spec["annotators"])[0], Segment(70, 73), None)
+                c.add_annotator("zz_late")
             nts, dis, uds = observe_alignment(al)
             # result stability: the alignment object returned by the PREVIOUS call is observed again
             prev_changed = None
